@@ -57,6 +57,8 @@ GQCap == 10000
 GQOf(mp) == Min2((mp + 500) \div 1000, GQCap)
 (* mp is known up to tol: every value the rounding can give inside [mp - tol, mp + tol] *)
 GQRange(mp, tol) == GQOf(Max2(mp - tol, 0))..GQOf(mp + tol)
+(* the mass is only known to lie in [lo, hi] milli-phred (the rounding interval of the written GL values) *)
+GQBetween(lo, hi) == GQOf(Max2(lo, 0))..GQOf(hi)
 (* tolerance of a milli-phred value recovered from 6-significant-digit log10 values *)
 MpTol(mp) == 3 + (mp \div 50000)
 =============================================================================
